@@ -7,8 +7,8 @@ use rand::Rng;
 use serde_json::Value;
 
 #[allow(dead_code)]
-pub const KINDS: [&str; 15] =
-    ["P", "RD", "AL", "UA", "ON", "OF", "NP", "VB", "GO", "GC", "HD", "HE", "LC", "SE", "CM"];
+pub const KINDS: [&str; 17] =
+    ["P", "RD", "AL", "UA", "ON", "OF", "NP", "VB", "GO", "GC", "HD", "HE", "LC", "SE", "CM", "U8", "BX"];
 
 #[derive(Clone, Debug, PartialEq, Eq, Hash)]
 pub struct Scenario {
@@ -35,8 +35,58 @@ pub fn text(kind: &str, i: usize) -> String {
         "LC" => format!("probe l{i} \\"),
         "SE" => format!("probe s{i}; )"),
         "CM" => format!("# c{i}"),
+        "U8" => format!("probe u{i}<U+00E9>"),
+        "BX" => format!("probe b{i}caf<E9>"),
         other => panic!("unknown line kind {other}"),
     }
+}
+
+/// Expands the ASCII placeholders of the specification's text: `<U+XXXX>` is
+/// the character (UTF-8 encoded), `<XX>` the single byte.
+pub fn expand(text: &str) -> Vec<u8> {
+    let b = text.as_bytes();
+    let mut out = vec![];
+    let mut i = 0;
+    while i < b.len() {
+        if b[i] == b'<' {
+            if let Some(end) = text[i..].find('>') {
+                let inner = &text[i + 1..i + end];
+                if let Some(hex) = inner.strip_prefix("U+") {
+                    if let Some(c) = u32::from_str_radix(hex, 16).ok().and_then(char::from_u32) {
+                        let mut buf = [0u8; 4];
+                        out.extend_from_slice(c.encode_utf8(&mut buf).as_bytes());
+                        i += end + 1;
+                        continue;
+                    }
+                } else if inner.len() == 2 {
+                    if let Ok(v) = u8::from_str_radix(inner, 16) {
+                        out.push(v);
+                        i += end + 1;
+                        continue;
+                    }
+                }
+            }
+        }
+        out.push(b[i]);
+        i += 1;
+    }
+    out
+}
+
+/// The inverse for what was observed: every non-ASCII character becomes `<U+XXXX>`.
+pub fn esc(s: &str) -> String {
+    if s.is_ascii() {
+        return s.to_string();
+    }
+    let mut out = String::new();
+    for c in s.chars() {
+        if c.is_ascii() {
+            out.push(c);
+        } else {
+            out.push_str(&format!("<U+{:04X}>", c as u32));
+        }
+    }
+    out
 }
 
 impl Scenario {
@@ -48,7 +98,7 @@ impl Scenario {
         if !self.lines.is_empty() && self.nl {
             s.push('\n');
         }
-        s.into_bytes()
+        expand(&s)
     }
     pub fn has(&self, kind: &str) -> bool {
         self.lines.iter().any(|k| k == kind)
@@ -89,6 +139,8 @@ pub fn random<R: Rng>(rng: &mut R, len: usize, feed: &str) -> Scenario {
             "HE"
         } else if lines.last().map(|s| s == "LC").unwrap_or(false) && r < 85 {
             if r < 70 { "P" } else if r < 78 { "HE" } else { "LC" }
+        } else if lines.last().map(|s| s == "RD").unwrap_or(false) && r < 30 {
+            if r < 18 && feed == "fd" { "BX" } else { "U8" }
         } else if depth > 0 && r < 22 {
             depth -= 1;
             "GC"
@@ -113,7 +165,11 @@ pub fn random<R: Rng>(rng: &mut R, len: usize, feed: &str) -> Scenario {
                 }
                 86..=88 => "HE",
                 89..=92 => "LC",
-                93..=95 => "SE",
+                93..=94 => "SE",
+                95..=96 => "U8",
+                97..=98 => {
+                    if feed == "fd" { "BX" } else { "U8" }
+                }
                 _ => "CM",
             }
         };
